@@ -95,9 +95,12 @@ def register(R, tier="quick"):
 
     R.contract(RD + ":TermInfo.add_posting", props=["C10"], setup=ap_setup,
                variants=[dict(has_length=True), dict(has_length=False)],
+               requires=[lambda I, env: z3.Implies(z3.Not(o_none(env["self"].fields["_minid"])),
+                                                   z3.And(env["docnum"] >= env["self"].fields["_maxid"],
+                                                          o_val(env["self"].fields["_minid"]) <= env["self"].fields["_maxid"]))],
                ensures=[ap_post],
                canaries=[Canary("df-not-counted", "self._df += 1", "self._df += 0"),
-                         Canary("maxid-keeps-first", "self._maxid = docnum", "self._maxid = max(self._maxid, 0)"),
+                         Canary("maxid-keeps-first", "self._maxid = docnum", "self._maxid = min(self._maxid, docnum)"),
                          Canary("min-is-max", "self._minlength = min(self._minlength, length)", "self._minlength = max(self._minlength, length)")],
                note="weight += w, df += 1, max weight, first/last id, min/max length: exactly the fold step")
 
@@ -166,7 +169,11 @@ def register(R, tier="quick"):
                setup=lambda I: {"self": mk_terminfo(I, (W3, "W3TermInfo"), {"_offset": None, "_length": None, "_inlined": None}),
                                 "block": Block(I)},
                requires=[lambda I, env: z3.Implies(z3.Not(o_none(env["self"].fields["_minlength"])),
-                                                   z3.Not(env["block"].minlen.isnone))],
+                                                   z3.Not(env["block"].minlen.isnone)),
+                         lambda I, env: z3.And(env["block"].minid <= env["block"].maxid,
+                                               z3.Implies(z3.Not(o_none(env["self"].fields["_minid"])),
+                                                          z3.And(env["block"].minid > env["self"].fields["_maxid"],
+                                                                 o_val(env["self"].fields["_minid"]) <= env["self"].fields["_maxid"])))],
                ensures=[ab_post],
                canaries=[Canary("df-counts-blocks", "self._df += len(block)", "self._df += 1"),
                          Canary("minid-overwritten", "if self._minid is None:", "if True:"),
@@ -244,7 +251,6 @@ def register(R, tier="quick"):
                z3.ForAll([k], z3.Implies(z3.And(0 <= k, k < ids0.n), z3.And(z3.Select(ids.arr, k) == z3.Select(ids0.arr, k),
                                                                               z3.Select(w.arr, k) == z3.Select(w0.arr, k)))),
                s["_maxweight"] == z3.If(env["weight"] > s0["_maxweight"], env["weight"], s0["_maxweight"]),
-               s["_values"].n == s0["_values"].n + z3.If(env["vbytes"].nonempty, 1, 0),
                stats_ok(I, env)]
         if ln is None:
             out += [o_none(s["_minlength"]) == o_none(s0["_minlength"]), o_val(s["_minlength"]) == o_val(s0["_minlength"]),
